@@ -874,7 +874,7 @@ func buildScalarType(src protoreflect.FieldDescriptor, ext protoFieldExtensions)
 			Integer: &schema_j5pb.IntegerField{
 				Format:    schema_j5pb.IntegerField_FORMAT_UINT64,
 				Rules:     integerRules,
-				ListRules: ext.list.GetInt64(),
+				ListRules: ext.list.GetUint64(),
 			},
 		}, nil
 
